@@ -24,6 +24,7 @@ EXPLANATION = (
     "object (a default is created once and shared by all instances built without that argument).  Does not decide that the aggregate is numerically the "
     "documented one.")
 RULES = {
+    "C09-i": "GUARD: compute() yields nothing under pass_on_empty only where the fill counter was seen to be zero",
     "C09-a": "AGREE: fields written while filling/computing (minus derived ones) are re-initialised by reset",
     "C09-b": "AGREE: reset assigns what __init__ assigns with parameters at their defaults",
     "C09-c": "RESOLVE: attributes read in reset exist; fields written in reset are read somewhere",
@@ -691,7 +692,57 @@ def check_shared_defaults(ctx):
     ctx.instances_floor("C09-h", n, 15, "parameter defaults of accumulator methods")
 
 
+def check_empty_means_empty(ctx):
+    """pass_on_empty lets compute() of Mean / VarianceMeanCount yield nothing *when nothing was filled* -- and only then
+    (the documentation: with one value and corrected=True `LenaZeroDivisionError is always raised`).  Every path of a
+    compute() that ends without a yield and without raising under `_pass_on_empty` has established that the fill counter is
+    zero: `not self._count`, `self._count == 0` (or `< 1`, `<= 0`) -- a comparison with anything but a constant
+    zero widens 'empty' to samples that were filled."""
+    n = 0
+    for mod, cls in accumulators(ctx):
+        ms = methods(cls)
+        comp = ms.get("compute")
+        if comp is None or not any(A.is_self_attr(x, "_pass_on_empty") for x in A.walk_local(comp) if isinstance(x, ast.Attribute)):
+            continue
+        seen = set()
+        for p in P.paths_of(comp):
+            if p.end == "raise" or p.yields():
+                continue
+            lits = p.literals()
+            if not any(A.is_self_attr(t, "_pass_on_empty") and pol for t, pol in lits if isinstance(t, ast.Attribute)):
+                continue
+            empty = False
+            for t, pol in lits:
+                if isinstance(t, ast.Attribute) and A.is_self_attr(t) and t.attr != "_pass_on_empty" and pol is False:
+                    empty = True      # `not self._count`
+                lc = K.linear_cmp(t) if isinstance(t, ast.Compare) else None
+                if lc is not None and len(lc[0]) == 1 and list(lc[0])[0].startswith("self."):
+                    coef, const_, op = lc
+                    if not pol:
+                        coef, const_, op = K.negate_linear(lc)
+                    a = list(coef.values())[0]
+                    # a*x + c op 0 over integers x >= 0: does it pin x to 0?
+                    if op == "==" and const_ == 0:
+                        empty = True
+                    elif op in ("<", "<=") and a > 0:
+                        bound = (-const_) / float(a)
+                        if (op == "<" and bound <= 1) or (op == "<=" and bound < 1):
+                            empty = True
+            key = p.describe(3)
+            if key in seen:
+                continue
+            seen.add(key)
+            n += 1
+            ctx.check("C09-i", empty, comp, "%s.compute ends silently under pass_on_empty on path [%s], which does not establish that "
+                      "nothing was filled (the counter is zero): a filled sample would yield nothing instead of its aggregate or the "
+                      "documented error" % (cls.name, p.describe()),
+                      detail="%s.compute: silent exit only for an empty sample [%s]" % (cls.name, p.describe(2)),
+                      construct="silent-nonempty:%s" % cls.name, path=p)
+    ctx.instances_floor("C09-i", n, 2, "silent pass_on_empty exits of compute()")
+
+
 def check(ctx):
+    check_empty_means_empty(ctx)
     check_reset(ctx)
     check_shared_defaults(ctx)
     check_dsum(ctx)
@@ -700,6 +751,8 @@ def check(ctx):
 
 
 VARIANTS = [
+    M("vmc-empty-includes-one", "lena/math/elements.py", "        if not self._count:\n            if self._pass_on_empty:\n                return\n            raise LenaZeroDivisionError(\n                \"can't calculate average. No values were filled\"",
+      "        if self._count < 2:\n            if self._pass_on_empty:\n                return\n            raise LenaZeroDivisionError(\n                \"can't calculate average. No values were filled\"", ["C09-i"]),
     M("histogram-template-not-copied", "lena/structures/histogram.py", "        self._initial_bins = copy.deepcopy(bins)", "        self._initial_bins = bins", ["C09-g"]),
     M("vmc-shared-default-sums", "lena/math/elements.py", "    def __init__(self, sum_sq=None, sum_=None, corrected=True,", "    def __init__(self, sum_sq=Sum(), sum_=Sum(), corrected=True,", ["C09-h"]),
     M("storefilled-shared-list", "lena/flow/elements.py", "class StoreFilled(object):", "class StoreFilled(object):\n    def _unused(self, acc=[]):\n        return acc\n", ["C09-h"]),
